@@ -18,7 +18,7 @@ package scalarEstimator
 
 /* -------------------------------------------------------------------------- */
 
-//import   "fmt"
+import   "fmt"
 import   "math"
 
 import . "github.com/pbenner/autodiff/statistics"
@@ -116,6 +116,9 @@ func (obj *PoissonEstimator) updateEstimate() error {
   // compute new mean
   //////////////////////////////////////////////////////////////////////////////
   mu := NewScalar(obj.ScalarType(), math.Exp(sum_m - sum_g))
+  if math.IsNaN(mu.GetFloat64()) {
+    return fmt.Errorf("poisson parameter estimation failed (no observation with positive weight)")
+  }
 
   //////////////////////////////////////////////////////////////////////////////
   if t, err := scalarDistribution.NewPoissonDistribution(mu); err != nil {
